@@ -113,6 +113,15 @@ class CombineCallsBaseCodemod(SimpleCodemod, NameResolutionMixin):
 
         return cst.Arg(value=cst.Tuple(elements=elements))
 
+    @staticmethod
+    def _with_spacing_of(
+        operator: cst.BaseBooleanOp, outer: cst.BaseBooleanOp
+    ) -> cst.BaseBooleanOp:
+        return operator.with_changes(
+            whitespace_before=outer.whitespace_before,
+            whitespace_after=outer.whitespace_after,
+        )
+
     def combine_call_or_boolop_fold_right(
         self, node: cst.BooleanOperation
     ) -> cst.BooleanOperation:
@@ -120,7 +129,8 @@ class CombineCallsBaseCodemod(SimpleCodemod, NameResolutionMixin):
         new_right = node.right.right
         return cst.BooleanOperation(
             left=new_left,
-            operator=node.right.operator,
+            # the inner operator leaves its parentheses: it may not keep a line break
+            operator=self._with_spacing_of(node.right.operator, node.operator),
             right=new_right,
             lpar=node.lpar,
             rpar=node.rpar,
@@ -133,7 +143,7 @@ class CombineCallsBaseCodemod(SimpleCodemod, NameResolutionMixin):
         new_right = self.combine_calls(node.left.right, node.right)
         return cst.BooleanOperation(
             left=new_left,
-            operator=node.left.operator,
+            operator=self._with_spacing_of(node.left.operator, node.operator),
             right=new_right,
             lpar=node.lpar,
             rpar=node.rpar,
